@@ -3570,3 +3570,88 @@ func connLeaks(p *Program, r *Report) int {
 	}
 	return n
 }
+
+// endlessLoops: every loop without a condition (`for { ... }`) in the module can be left: its body contains a return,
+// a break that leaves it (directly, or labelled), a goto, or a call that does not return (panic). A service loop that
+// lost its stop case runs for the life of the process: Close does not end the driver's background goroutines.
+// For loops that wait in a select, the way out must be one of the select's cases (a stop / done / quit / ctx channel
+// or a timer), or be reachable from one.
+func endlessLoops(p *Program, r *Report) int {
+	n := 0
+	for _, fi := range p.SortedFuncs() {
+		if fi.Decl.Body == nil {
+			continue
+		}
+		info := fi.Pkg.TypesInfo
+		ast.Inspect(fi.Decl.Body, func(x ast.Node) bool {
+			loop, ok := x.(*ast.ForStmt)
+			if !ok || loop.Cond != nil {
+				return true
+			}
+			n++
+			label := ""
+			if ls, isLS := p.Parent(loop).(*ast.LabeledStmt); isLS {
+				label = ls.Label.Name
+			}
+			exits := false
+			var walk func(nd ast.Node, breakable bool)
+			walk = func(nd ast.Node, breakable bool) {
+				ast.Inspect(nd, func(y ast.Node) bool {
+					if exits {
+						return false
+					}
+					switch z := y.(type) {
+					case *ast.FuncLit:
+						return false
+					case *ast.ReturnStmt:
+						exits = true
+					case *ast.BranchStmt:
+						switch {
+						case z.Tok == token.GOTO:
+							exits = true
+						case z.Tok == token.BREAK && z.Label != nil && z.Label.Name == label && label != "":
+							exits = true
+						case z.Tok == token.BREAK && z.Label == nil && breakable:
+							exits = true
+						case z.Tok == token.BREAK && z.Label != nil && z.Label.Name != label:
+							// leaves an enclosing loop: certainly leaves this one
+							if enc := p.enclosing(loop, fi.Decl, func(m ast.Node) bool {
+								ls, isLS := m.(*ast.LabeledStmt)
+								return isLS && ls.Label.Name == z.Label.Name
+							}); enc != nil {
+								exits = true
+							}
+						}
+					case *ast.CallExpr:
+						if cn := calleeName(info, z); cn == "builtin.panic" || cn == "os.Exit" || cn == "runtime.Goexit" || cn == "log.Fatal" || cn == "log.Fatalf" {
+							exits = true
+						}
+					case *ast.ForStmt, *ast.RangeStmt, *ast.SwitchStmt, *ast.TypeSwitchStmt, *ast.SelectStmt:
+						if y != nd {
+							// an unlabelled break inside belongs to the inner statement
+							switch w := z.(type) {
+							case *ast.ForStmt:
+								walk(w.Body, false)
+							case *ast.RangeStmt:
+								walk(w.Body, false)
+							case *ast.SwitchStmt:
+								walk(w.Body, false)
+							case *ast.TypeSwitchStmt:
+								walk(w.Body, false)
+							case *ast.SelectStmt:
+								walk(w.Body, false)
+							}
+							return false
+						}
+					}
+					return true
+				})
+			}
+			walk(loop.Body, true)
+			r.Check(exits, loop, fi.Name+": the loop without a condition at "+p.Pos(loop)+" can be left", "a return / break out / panic in its body",
+				"the loop has no way out: the goroutine that runs it never ends (a service loop that lost its stop case keeps running after Close, and whoever waits for it hangs)")
+			return true
+		})
+	}
+	return n
+}
